@@ -6,6 +6,14 @@ VC = ("contract-based deductive verification: verification conditions generated 
       "discharged by z3 (cvc5 for z3-unknowns); ")
 
 PROPS = {
+    "C03": {
+        "units": [walks.units_c03], "level": "other", "design_ref": "7.3",
+        "technique": VC + "multiwalk with both fetchers against an UNCONSTRAINED agent (arbitrary bindings): inductive invariant "
+                     "over ghost sets (continued-from, witnesses, revealed), variant from a finite-universe rank; roots, "
+                     "repetitions and response counts enumerated",
+        "trusted_base": ["Client._send used by its contract above the seam", "finite OID universe (ghost rank)",
+                         "x690 ObjectIdentifier order/containment contract (assumed, validated by enumeration)"],
+    },
     "C01": {
         "units": [walks.units_c01], "level": "other", "design_ref": "7.1",
         "technique": VC + "multiwalk verified with an inductive loop invariant over an uninterpreted, totally ordered OID "
